@@ -191,3 +191,34 @@ Example extension_example :
   process false [] [] [DTxn t; DRule r] = [Ok (XAccepted (lift SUncleared (t_posts t)))] /\
   process false [] [] [DRule bad; DTxn t] = [Err EUnbalanced].
 Proof. cbv zeta. repeat split; vm_compute; reflexivity. Qed.
+
+(* FINDING (known_findings.txt F22).  The full statement - EVERY posting of the transaction that
+   matches and was not made by a rule receives the rule's postings - is false of the faithful
+   model: when an elided amount stands for several commodities, finalize (xact.cc:143-153) creates
+   the second and later postings with ITEM_GENERATED, and extend_xact skips them like rule output.
+   Witness: `= /C/  (B) 1` before `F $10.00 / F 5.00 EUR / C` : C receives $-10.00 and -5.00 EUR,
+   (B) receives $-10.00 only.  Writing the two amounts of C out gives (B) both. *)
+Theorem elided_commodity_postings_extended_refuted :
+  exists r t ps xs x,
+    let cp := cp_of (learn_posts [] (t_posts t)) in
+    let base := lift (t_state t) (map (annotate_cost cp) ps) in
+    finalize false cp None (t_posts t) = Ok (Accepted ps) /\
+    process false [] [] [DRule r; DTxn t] = [Ok (XAccepted xs)] /\
+    In x base /\ matchesb r (t_payee t) x = true /\
+    xs <> base ++ flat_map (fun y => map (inst_post cp (t_state t) (x_post y)) (r_lines r))
+                           (filter (matchesb r (t_payee t)) base).
+Proof.
+  pose (usd := Some [36%Z]). pose (eur := Some [69; 85; 82]%Z).
+  pose (r := mkRule (PAcct [67%Z]) [mkLine [66%Z] PVirtual (Some (mkAmt 1 0%Z false None)) SUncleared]).
+  pose (t := mkTxn [120; 49]%Z SUncleared
+                   [mkPost [70%Z] PReal (Some (mkAmt 10 2%Z false usd)) None None false false false;
+                    mkPost [70%Z] PReal (Some (mkAmt 5 2%Z false eur)) None None false false false;
+                    mkPost [67%Z] PReal None None None false false false]).
+  exists r, t.
+  eexists. eexists.
+  exists (mkX (mkPost [67%Z] PReal (Some (mkAmt (-5) 2%Z false eur)) None None true true false) SUncleared).
+  cbv zeta. split; [vm_compute; reflexivity|]. split; [vm_compute; reflexivity|].
+  split; [vm_compute; tauto|]. split; [vm_compute; reflexivity|].
+  intros H. apply (f_equal (@length xpost)) in H. vm_compute in H. discriminate.
+Qed.
+Print Assumptions elided_commodity_postings_extended_refuted.
